@@ -531,6 +531,10 @@ def _chunk_sym(node, names):
     if isinstance(node, ast.Constant) and isinstance(node.value, int):
         return sp.Integer(node.value)
     if isinstance(node, ast.Name):
+        singles = names.get("__singles__", {})
+        if node.id in singles and names.get("__depth__", 0) < 6:
+            sub = dict(names, __depth__=names.get("__depth__", 0) + 1)
+            return _chunk_sym(singles[node.id], sub)
         raise AnalysisError("chunk loop: free name %s" % node.id)
     if isinstance(node, ast.UnaryOp) and isinstance(node.op, ast.USub):
         return -_chunk_sym(node.operand, names)
@@ -570,7 +574,7 @@ def rule_chunk(r):
         caller_loop = [s for s in pf.walk_stmts(fn) if isinstance(s, ast.For)][0]
         V = pf.unparse(lp.target)
         Vsym = sp.Symbol("v", integer=True, nonnegative=True)
-        names = {V: Vsym}
+        names = {V: Vsym, "__singles__": {k_: v_ for k_, v_ in pf.single_assignments(host).items() if k_ != "step"}}
         # the mesh size: <obj>.num_eval, possibly through int() and a local alias in the helper
         for owner in ("call_details", "self"):
             names["%s.num_eval" % owner] = Nsym
@@ -734,7 +738,7 @@ RULES = [
     ("R-C01-gate", 61 * 3 * 4, "VALID and strict cutoff gate every accumulation", make_c_rule("R-C01-gate")),
     ("R-C01-restart", 61 * 3 * 3, "loop restart protocol per level", make_c_rule("R-C01-restart")),
     ("R-C01-loops", 300, "counted loops of every kernel run 0 <= i < bound, step 1", make_c_rule("R-C01-loops")),
-    ("R-C01-drivers", 50, "the dll, OpenCL and CUDA drivers agree on kernel arguments, result size, read-back, kernel selection and q layout", _gpu.rule_drivers),
+    ("R-C01-drivers", 53, "the dll, OpenCL and CUDA drivers agree on kernel arguments, result size, read-back, kernel selection and q layout", _gpu.rule_drivers),
     ("R-C01-gpu", 2000, "OpenCL configuration of every unit: work-item bound, carried q-point sums, gated accumulation", _gpu.make_gpu_rule()),
     ("R-C01-struct", 60, "ProblemDetails layout = CallDetails.buffer views", rule_struct),
     ("R-C01-values", 9, "value vector layout and NUM_VALUES", rule_values),
